@@ -10,7 +10,7 @@ def sh(cmd, **kw):
 def one(src):
     src = src.rstrip('/')
     k = os.path.basename(src); pid = os.path.basename(os.path.dirname(src))
-    wave = 'w2-' if 'seed_out2' in src else ''
+    wave = 'w3-' if 'seed_out3' in src else 'w2-' if 'seed_out2' in src else ''
     dest = f'/verif/seeded/{pid}-{wave}{k.rstrip("p")}'
     wt = tempfile.mkdtemp(prefix='smwt.', dir='/tmp')
     res = dict(seed=f'{pid}-{wave}{k}')
